@@ -356,8 +356,8 @@ func (s *r2State) interruptPath(d *core.FuncDecl, ctxP *types.Var, chans []*type
 	}
 	// evidence since the last loop boundary
 	ctxEv, closedEv := false, false
-	recvErr := map[*types.Var]bool{}   // local holding an error received from an error channel
-	guarded := map[*types.Var]bool{}   // … and tested != nil on this path
+	recvErr := map[*types.Var]bool{} // local holding an error received from an error channel
+	guarded := map[*types.Var]bool{} // … and tested != nil on this path
 	cancelEv := false
 	for i, ev := range p.Events {
 		if ev.Frame.Parent != nil {
